@@ -313,7 +313,7 @@ pub fn run(ctx: &RunCtx) -> Outcome {
     fcfg.leaves = vec![Lit('a'), Lit('B'), Any, Class(false, vec![('a', 'b')]), Class(true, vec![('A', 'A')]), Perl('w'), Assert(A::StartText), Assert(A::EndText), Assert(A::WordB), Lit('é'), Lit('\n')];
     let fbases = space(&fcfg, 3, false);
     let fpats = flag_variants(&fbases);
-    let ftexts = gen::texts(&['a', 'A', 'B', 'é', '\n'], 3);
+    let ftexts = if quick { gen::texts(&['a', 'A', 'B', '\n'], 3) } else { gen::texts(&['a', 'A', 'B', 'é', '\n'], 3) };
     if !stage(ctx, &mut o, &plain, "flag variants of N<=3 bases", &fpats, &ftexts) {
         return o;
     }
